@@ -148,7 +148,11 @@ Init ==
   /\ srv = "up"
   /\ now = 0
 
-Upd(s, r) == ss' = [ss EXCEPT ![s] = r]
+\* An ABOR that overtook a running handler (ab = "pend") becomes an ordinary pending ABOR once that handler is done;
+\* one that was already answered (ab = "done") is forgotten.
+Fin(r) == IF r.h.v = "" /\ r.ab = "pend" THEN [r EXCEPT !.h.v = "abor", !.ab = ""]
+          ELSE IF r.h.v = "" /\ r.ab = "done" THEN [r EXCEPT !.ab = ""] ELSE r
+Upd(s, r) == ss' = [ss EXCEPT ![s] = Fin(r)]
 
 -----------------------------------------------------------------------------
 (* Time: an event at time t is possible only if no armed deadline is skipped *)
@@ -259,16 +263,19 @@ Verdicts(r) ==
        {IF ok THEN (IF v \in {"stor", "appe"} /\ ~IsDirT(tree, Real(r.user, Parent(VPath(r)))) THEN "550" ELSE "")
               ELSE "550" : ok \in ps}
 
+\* A transfer must not be started once an ABOR that arrived after the transfer command has been answered
+\* ("nothing to abort"); the shipped server does just that: known finding abor-before-150.
+MaySpawn(r) == r.ab # "done" \/ "abor-before-150" \in KF
+
 Spawn(r, t) ==
-  LET parked == r.dc = "parked"
-      aborted == r.ab # "" /\ "abor-before-150" \notin KF IN     \* an ABOR overtook the 150: the transfer must not run
-  [NoW EXCEPT !.v = r.h.v, !.p = RPath(r), !.st = IF aborted THEN "cancel" ELSE IF parked THEN "run" ELSE "wait",
+  LET parked == r.dc = "parked" IN
+  [NoW EXCEPT !.v = r.h.v, !.p = RPath(r), !.st = IF parked THEN "run" ELSE "wait",
               !.off = r.h.n,
               !.sock = parked, !.had = parked,
               !.dl = IF parked THEN (IF SockT > 0 /\ r.h.v \in {"stor", "appe"} THEN t + SockT ELSE 0)
                      ELSE (IF WaitData > 0 THEN t + WaitData ELSE 0)]
 
-Out(rep, r, uu, us) == [rep |-> rep, r |-> [r EXCEPT !.h = NoH], uu |-> uu, us |-> us]
+Out(rep, r, uu, us) == [rep |-> rep, r |-> Fin([r EXCEPT !.h = NoH]), uu |-> uu, us |-> us]
 
 \* Outcomes of a pending handler that performs no backend mutation and no listener start-up.
 \* (t = the instant at which its first reply is written.)
@@ -327,8 +334,9 @@ Outcomes(r, t) ==
                 ELSE CASE v \in {"cwd", "cdup"} -> same(<<"250">>, [r EXCEPT !.cwd = VPath(r)])
                        [] v = "mlst" -> same(<<"250">>, r)
                        [] v = "rnfr" -> same(<<"350">>, [r EXCEPT !.rnfr = RPath(r)])
-                       [] OTHER -> same(<<"150">>, [r EXCEPT !.w = Spawn(r, t), !.rest = 0,
-                                                            !.dc = "none", !.ab = ""])
+                       [] OTHER -> IF MaySpawn(r)
+                                     THEN same(<<"150">>, [r EXCEPT !.w = Spawn(r, t), !.rest = 0, !.dc = "none"])
+                                     ELSE {}
                : c \in Verdicts(r)}
     [] OTHER -> {}
 
@@ -360,8 +368,8 @@ PreAbor(r) ==
 \* A transfer handler whose guards pass leaves a worker behind and queues 150; the worker may
 \* produce observable events before the 150 is written.
 PreSpawn(r, t) ==
-  IF r.h.v \in WorkerVerbs /\ ~r.h.failed /\ r.w.v = "" /\ r.ph = "open" /\ "" \in Verdicts(r)
-    THEN [r EXCEPT !.h = NoH, !.w = Spawn(r, t), !.rest = 0, !.dc = "none", !.outq = @ \o <<"150">>, !.ab = ""]
+  IF r.h.v \in WorkerVerbs /\ ~r.h.failed /\ r.w.v = "" /\ r.ph = "open" /\ "" \in Verdicts(r) /\ MaySpawn(r)
+    THEN Fin([r EXCEPT !.h = NoH, !.w = Spawn(r, t), !.rest = 0, !.dc = "none", !.outq = @ \o <<"150">>])
     ELSE r
 Pre(r, t) == PreAbor(PreSpawn(r, t))
 \* what the session may look like once handlers that have no reply of their own have (or have not yet) run
